@@ -9,6 +9,7 @@ sys.path.insert(0, os.path.dirname(os.path.dirname(os.path.abspath(__file__))))
 
 from vlib import runner  # noqa: E402
 from vlib.e1 import Explorer  # noqa: E402
+from vlib.e1 import Monitor  # noqa: E402
 from vlib.e1jobs import aggregate_e1, make_workload, reference_outcomes, result_from, wl, world  # noqa: E402
 from vlib.monitors import ExecOnceMonitor, LegalTransitionMonitor, OutcomeMonitor  # noqa: E402
 
@@ -18,10 +19,11 @@ CONFLUENT = [
     wl("chain3"), wl("diamond"), wl("multitask"), wl("diamond_multitask"), wl("fail_mid"), wl("raise_mid"),
     wl("continue_on_fail"), wl("skip_stage"), wl("poll", 1), wl("poll", 2), wl("transient", 1, True),
     wl("transient", 1, False), wl("or_split_join"), wl("jump_self", 1), wl("jump_cycle", 2, 1), wl("jump_cycle", 2, 2),
-    wl("jump_cycle", 3, 1), wl("jump_forward_diamond", 1), wl("jump_side_fanin", 1), wl("synthetic"), wl("synthetic2"), wl("synthetic_raise"),
+    wl("jump_cycle", 3, 1), wl("jump_forward_diamond", 1), wl("jump_side_fanin", 1), wl("synthetic"), wl("synthetic2"), wl("synthetic_raise"), wl("synthetic2_multitask"), wl("declared_after_ok"), wl("or_split_err"),
+    wl("or_split_long"), wl("jump_back_multitask", 1),
     wl("multitask_fail", 0), wl("multitask_fail", 1),
 ]
-RACY = [wl("fail_branch"), wl("first_of"), wl("quorum"), wl("multi_merge")]
+RACY = [wl("fail_branch"), wl("first_of"), wl("quorum"), wl("multi_merge"), wl("synthetic2_failpre"), wl("declared_after_fc")]
 BIG = [wl("fan3")]
 
 
@@ -36,6 +38,11 @@ def jobs(tier, seed):
     # a branch that stays in flight for 6 polling rounds while the workflow-completion check keeps being re-queued
     js.append({"label": "slow_branch[6]|all-orders|wait-horizon 20", "wl": wl("slow_branch", 6), "budget": {},
                "wait_retries": 20, "max_states": 400000})
+    # the order in which parallel branches FINISHED is part of the state identity here (stage end times come from the
+    # harness's logical clock): what a join sees must not depend on it
+    for spec in [wl("diamond"), wl("fan3"), wl("diamond_multitask")]:
+        js.append({"label": f"{spec[0]}{spec[1]}|all-orders|completion order in the state", "wl": spec, "budget": {},
+                   "time_rank": True, "max_states": 400000})
     if tier == "quick":
         heavy = {"first_of", "quorum", "multi_merge", "jump_side_fanin"}
         for spec in CONFLUENT + RACY:
@@ -63,6 +70,34 @@ def jobs(tier, seed):
     return js
 
 
+class SeenDataMonitor(Monitor):
+    """Where the in-order run leaves no doubt (no loops, no racy joins): every task execution sees a context that the
+    same execution saw under in-order delivery - including keys published by several unordered branches, whose
+    tie-break must be a function of the graph, not of which branch happened to finish last."""
+
+    name = "seen"
+
+    def __init__(self, ref_ledger):
+        self.ref = {}
+        for e in ref_ledger:
+            self.ref.setdefault((e["stage"], e["task"], e["step"]), set()).add(self.digest(e["ctx"]))
+
+    @staticmethod
+    def digest(ctx):
+        from vlib.world import dumps
+
+        return dumps({k: (sorted(x, key=str) if isinstance(x, list) else x) for k, x in ctx.items() if not k.startswith("_")})
+
+    def step(self, ex, tr, ms):
+        v = []
+        for e in tr.ledger:
+            want = self.ref.get((e["stage"], e["task"], e["step"]))
+            if want is not None and self.digest(e["ctx"]) not in want:
+                v.append({"kind": "execution-saw-data-the-in-order-run-never-shows", "stage": e["stage"], "task": e["task"],
+                          "saw": self.digest(e["ctx"])[:200], "in_order": sorted(want)[0][:200], "sig": "data-seen-differs"})
+        return ms, v
+
+
 def build(job):
     from vlib.world import DEFAULT_WAIT_RETRIES
 
@@ -70,9 +105,12 @@ def build(job):
     # the "stage still running, poll again" horizon: production 240 x 15 s; 2 in the harness unless a workload
     # legitimately keeps a stage in flight for several polling rounds
     w.wait_retries = job.get("wait_retries", DEFAULT_WAIT_RETRIES[0])
+    w.time_rank = bool(job.get("time_rank"))
     workload = make_workload(job["wl"])
     adm, _ledger, _ = reference_outcomes(w, workload)
     mons = [OutcomeMonitor(adm), ExecOnceMonitor(), LegalTransitionMonitor()]
+    if workload.klass == "confluent" and not any((sc.get("kind") == "jump") for st_ in workload.stages for _n, sc in (st_.tasks or [])):
+        mons.append(SeenDataMonitor(_ledger))
     ex = Explorer(w, workload, mons, job.get("budget"), max_states=job.get("max_states", 150000),
                   time_cap=job.get("time_cap", 1500), audit_bisim=job.get("bisim", False))
     ex._adm = adm
